@@ -96,6 +96,16 @@ func init() {
 		if lo < 0 {
 			lo = 0
 		}
+		if n.Lax {
+			// one-second granularity: a deadline may have been rounded down by up to a second
+			lo--
+			if lo < 0 {
+				lo = 0
+			}
+			if hi < 1 {
+				hi = 1
+			}
+		}
 		return one(MIntRange(lo, hi), n)
 	})
 
@@ -150,18 +160,28 @@ func init() {
 			}
 		case "gt":
 			if e.Exp == 0 || deadline <= e.Exp {
+				if n.Lax && e.Exp != 0 && e.Exp-deadline < 1000 {
+					break // deadlines closer than the clock granularity compare either way
+				}
 				return one(MInt(0), n)
 			}
 		case "lt":
 			if e.Exp != 0 && deadline >= e.Exp {
+				if n.Lax && deadline-e.Exp < 1000 {
+					break
+				}
 				return one(MInt(0), n)
 			}
 		}
+		var alts []Outcome
+		if n.Lax && (opt == "gt" || opt == "lt") && e.Exp != 0 && deadline-e.Exp < 1000 && e.Exp-deadline < 1000 {
+			alts = []Outcome{{Reply: MInt(0), Next: begin(s)}}
+		}
 		if deadline <= n.NowMs {
 			delete(n.M, k)
-			return one(MInt(1), n)
+			return append(one(MInt(1), n), alts...)
 		}
 		e.Exp = deadline
-		return one(MInt(1), n)
+		return append(one(MInt(1), n), alts...)
 	})
 }
